@@ -27,7 +27,12 @@
    subVector code paths; it never enters a result.  A rejected or read-only operation leaves vers
    unchanged; a creating one appends.  Persistence == [][\A k \in DOMAIN vers : vers'[k] = vers[k]]_vars.
 
-   Unspecified: nothing.  (Negative Elvish indices etc. belong to C13, not to this module.) *)
+   The Elvish layer (pkg/eval/vals: vals.Index / vals.Assoc on a List, i.e. $l[i], $l[i..j],
+   assoc $l i x) is a second set of operations on the same contents:
+     EIndex(v, i) = Index    ESlice(v, i, j) = Sub    EAssoc(v, i, x) = Assoc except that i = Len is
+     Rejected (element assignment cannot append).  "Rejected" there = an error is returned.
+   Unspecified(o): Elvish-layer requests with a negative bound (Elvish counts those from the end;
+   that rule is C13's subject).  The executor does not issue them.  Nothing else. *)
 EXTENDS Integers, Sequences
 
 (* ------------------------------------------------------------------ operations and results *)
@@ -40,8 +45,12 @@ InRange(o, len) ==
     [] o.op = "Assoc" -> 0 <= o.i /\ o.i <= len
     [] o.op = "Sub"   -> 0 <= o.i /\ o.i <= o.j /\ o.j <= len
     [] o.op = "Index" -> 0 <= o.i /\ o.i < len
+    [] o.op = "EIndex" -> 0 <= o.i /\ o.i < len
+    [] o.op = "EAssoc" -> 0 <= o.i /\ o.i < len
+    [] o.op = "ESlice" -> 0 <= o.i /\ o.i <= o.j /\ o.j <= len
     [] OTHER          -> TRUE
-Creating(o) == o.op \in {"Conj", "Pop", "Assoc", "Sub"}
+Creating(o) == o.op \in {"Conj", "Pop", "Assoc", "Sub", "EAssoc", "ESlice"}
+Unspecified(o) == o.op \in {"EIndex", "EAssoc", "ESlice"} /\ (o.i < 0 \/ o.j < 0)
 
 (* ------------------------------------------------ part 1: the array reference (explicit) *)
 ARes(q, o) ==
@@ -52,6 +61,9 @@ ARes(q, o) ==
                                       !.seq = IF o.i = Len(q) THEN Append(q, o.x) ELSE [q EXCEPT ![o.i + 1] = o.x]]
     [] o.op = "Sub"     -> [R0 EXCEPT !.new = TRUE, !.seq = SubSeq(q, o.i + 1, o.j)]
     [] o.op = "Index"   -> [R0 EXCEPT !.val = q[o.i + 1]]
+    [] o.op = "EIndex"  -> [R0 EXCEPT !.val = q[o.i + 1]]
+    [] o.op = "EAssoc"  -> [R0 EXCEPT !.new = TRUE, !.seq = [q EXCEPT ![o.i + 1] = o.x]]
+    [] o.op = "ESlice"  -> [R0 EXCEPT !.new = TRUE, !.seq = SubSeq(q, o.i + 1, o.j)]
     [] o.op = "Iterate" -> [R0 EXCEPT !.seq = q]
     [] o.op = "Len"     -> [R0 EXCEPT !.n = Len(q)]
 
@@ -97,6 +109,9 @@ Res(r, o) ==
     [] o.op = "Assoc"   -> [R0 EXCEPT !.new = TRUE, !.seq = Norm(RTake(r, o.i) \o One(o.x) \o RDrop(r, o.i + 1))]
     [] o.op = "Sub"     -> [R0 EXCEPT !.new = TRUE, !.seq = Norm(RTake(RDrop(r, o.i), o.j - o.i))]
     [] o.op = "Index"   -> [R0 EXCEPT !.val = RNth(r, o.i)]
+    [] o.op = "EIndex"  -> [R0 EXCEPT !.val = RNth(r, o.i)]
+    [] o.op = "EAssoc"  -> [R0 EXCEPT !.new = TRUE, !.seq = Norm(RTake(r, o.i) \o One(o.x) \o RDrop(r, o.i + 1))]
+    [] o.op = "ESlice"  -> [R0 EXCEPT !.new = TRUE, !.seq = Norm(RTake(RDrop(r, o.i), o.j - o.i))]
     [] o.op = "Iterate" -> [R0 EXCEPT !.seq = Norm(r)]
     [] o.op = "Len"     -> [R0 EXCEPT !.n = RLen(r)]
 
@@ -104,7 +119,7 @@ ExpandRes(res) == [res EXCEPT !.seq = Expand(@)]
 Refines(r, o) == ExpandRes(Res(r, o)) = ARes(Expand(r), o)
 
 (* ------------------------------------------------------------------------ versions *)
-KindOf(parent, o) == IF o.op = "Sub" THEN "slice" ELSE parent.kind
+KindOf(parent, o) == IF o.op \in {"Sub", "ESlice"} THEN "slice" ELSE parent.kind
 ApplyV(vs, o) == LET res == Res(vs[o.v + 1].seq, o)
                  IN IF res.new THEN Append(vs, [seq |-> res.seq, kind |-> KindOf(vs[o.v + 1], o)]) ELSE vs
 
